@@ -25,7 +25,7 @@ def jobs(only, ids):
             b = os.path.basename(p)
             if b.startswith("unfix"):
                 js.append(("unfix", pid, p))
-            elif "fix" in b or "suggest" in b:
+            elif b.startswith(("fix", "suggested")):
                 continue
             else:
                 js.append(("selftest", pid, p))
